@@ -104,6 +104,7 @@ TrStep ==
                                  [] e.e = "KEnd" -> If(e.calls = Len(st.hist), "EveryCallLogged")
                                  [] e.e = "Abort" -> {Hit("KAbort")}
                                  [] e.e = "Reset" -> {}
+                                 [] e.e = "OutOfRange" -> {Hit("OutOfRange")}
                                  [] OTHER -> {Hit("KUnknownRow")})
         /\ cov' = LET c0 == Bump(cov, "rows", 1) IN
                   CASE e.e = "Reset" -> Bump(Bump(Bump(Bump(c0, "runs", 1), IF e.kind = 1 THEN "kind_arnoldi" ELSE "kind_lanczos", 1),
